@@ -30,6 +30,9 @@ def replay_roundtrip(prop_id, seed, n):
     import warnings
 
     warnings.simplefilter("ignore")
+    import logging
+
+    logging.disable(logging.CRITICAL)
     from simkit import runner
     from simkit.engine import generate_and_run, replay
 
